@@ -48,10 +48,12 @@ def check_exact(ctx, cell, case):
     if not ok:
         return
     torch.manual_seed(case.get("seed", ctx.seed) + 5)
+    x_before = x.clone()
     ok, y = ctx.call(lambda: ch(x), "C13.raises", cell, case, checker=CHK)
     if not ok:
         return
     ctx.ev()
+    ctx.check(bool(torch.equal(x, x_before)), "C13.input_unmodified", cell, case, None, None, "channel modified its input tensor", CHK)
     B = shape[0] if len(shape) > 1 else 1
     L = int(np.prod(shape[1:])) if len(shape) > 1 else shape[0]
     if (L % T) or (ftype == "rician" and (param or 0) > 0) or len(shape) > 2:
